@@ -40,13 +40,6 @@ func runC12(res *lib.Result, tier string, seed int64, args []string) error {
 		if pi < 2 {
 			res.Sample(map[string]interface{}{"program": src, "occurrences": len(occs)})
 		}
-		// names excused by a known class somewhere in the program
-		excused := map[string]bool{}
-		for _, o := range occs {
-			if o.class != "" || o.t != o.s {
-				excused[o.name] = true
-			}
-		}
 		// globals with several assignment sites
 		writes := map[string]int{}
 		for _, o := range occs {
@@ -155,11 +148,6 @@ func runC12(res *lib.Result, tier string, seed int64, args []string) error {
 				}
 			}
 			if len(problems) == 0 {
-				continue
-			}
-			if excused[o.name] {
-				res.HitKnown("C12-K1", "definition (position-based resolver) and references/highlight (traversal-time binding) disagree for names that have an occurrence in a C05-K1/K2 situation: e.g. on the right-hand x of 'local x = x + 1' the position is not among its own references", caseText+"\n"+strings.Join(problems, "\n"))
-				res.Dist("hit.C12-K1")
 				continue
 			}
 			if o.t == "G" && writes[o.name] > 1 {
